@@ -448,14 +448,14 @@ func (vc *VC) mapVars(m *types.Map) (has, hasSort, val, valSort string) {
 // elemRead reads element i of slice s (no bounds obligation).
 func (vc *VC) elemRead(st *State, s string, i string, elemT types.Type) Term {
 	name, sort := vc.elemVar(elemT)
-	return Term{S: sx("select", sx("select", vc.get(st, name, sort), sx("sl_ref", s)), sx("+", sx("sl_off", s), i)),
+	return Term{S: sx("select", sx("select", vc.get(st, name, sort), sx("sl_ref", s)), sx("sl_idx", s, i)),
 		Sort: vc.ss().sortOf(elemT), T: elemT}
 }
 
 func (vc *VC) elemWrite(st *State, s string, i string, elemT types.Type, val string) {
 	name, sort := vc.elemVar(elemT)
 	cur := vc.get(st, name, sort)
-	inner := sx("store", sx("select", cur, sx("sl_ref", s)), sx("+", sx("sl_off", s), i), val)
+	inner := sx("store", sx("select", cur, sx("sl_ref", s)), sx("sl_idx", s, i), val)
 	vc.set(st, name, sort, sx("store", cur, sx("sl_ref", s), inner))
 }
 
